@@ -20,8 +20,11 @@
 #ifndef VERIF_HIST_H
 #define VERIF_HIST_H
 #include <bspline/Core.h>
+#include <bspline/interpolation/interpolation.h>
 
 #include <cstring>
+#include <limits>
+#include <stdexcept>
 #include <optional>
 #include <sstream>
 #include <string>
@@ -45,7 +48,7 @@ enum Code {
   S_NEW, S_NEW_INVALID, S_EMPTY, S_WHOLE, S_COPY, S_MOVE, S_ASSIGN, S_MOVE_ASSIGN, S_SELF_ASSIGN, S_UNION, S_INTERSECT, S_ACCESS, S_CONVERT,
   P_NEW, P_NEW_BADCOUNT, P_EMPTY, P_COPY, P_MOVE, P_ASSIGN, P_MOVE_ASSIGN, P_SELF_ASSIGN, P_SELF_MOVE_ASSIGN, P_CROSS_ASSIGN,
   P_SCALE, P_DIV, P_NEG, P_ISCALE, P_IDIV, P_ADD, P_SUB, P_MUL, P_IADD, P_ISUB, P_LINCOMB, P_LINCOMB_BAD,
-  P_APPLY, P_APPLY_SPLINEOP, P_LINFORM, P_BILFORM, P_EVAL, P_PRED, P_FRONTBACK, P_MOVE_REUSE, P_EVAL_MUTATE,
+  P_APPLY, P_APPLY_SPLINEOP, P_LINFORM, P_BILFORM, P_EVAL, P_PRED, P_FRONTBACK, P_MOVE_REUSE, P_EVAL_MUTATE, P_INTERPOLATE,
   CODE_COUNT
 };
 inline const char *code_name(int c) {
@@ -53,12 +56,49 @@ inline const char *code_name(int c) {
                             "S_NEW", "S_NEW_INVALID", "S_EMPTY", "S_WHOLE", "S_COPY", "S_MOVE", "S_ASSIGN", "S_MOVE_ASSIGN", "S_SELF_ASSIGN", "S_UNION", "S_INTERSECT", "S_ACCESS", "S_CONVERT",
                             "P_NEW", "P_NEW_BADCOUNT", "P_EMPTY", "P_COPY", "P_MOVE", "P_ASSIGN", "P_MOVE_ASSIGN", "P_SELF_ASSIGN", "P_SELF_MOVE_ASSIGN", "P_CROSS_ASSIGN",
                             "P_SCALE", "P_DIV", "P_NEG", "P_ISCALE", "P_IDIV", "P_ADD", "P_SUB", "P_MUL", "P_IADD", "P_ISUB", "P_LINCOMB", "P_LINCOMB_BAD",
-                            "P_APPLY", "P_APPLY_SPLINEOP", "P_LINFORM", "P_BILFORM", "P_EVAL", "P_PRED", "P_FRONTBACK", "P_MOVE_REUSE", "P_EVAL_MUTATE"};
+                            "P_APPLY", "P_APPLY_SPLINEOP", "P_LINFORM", "P_BILFORM", "P_EVAL", "P_PRED", "P_FRONTBACK", "P_MOVE_REUSE", "P_EVAL_MUTATE", "P_INTERPOLATE"};
   return c >= 0 && c < CODE_COUNT ? n[c] : "?";
 }
 
 template <class T>
 struct Traits;  // make(num, den), same(a, b)
+
+// generic dense solver for the interpolation opcode (Gaussian elimination; works for the exact scalar and for floats)
+struct SingularSystem : std::runtime_error {
+  SingularSystem() : std::runtime_error("singular") {}
+};
+template <class T>
+class GaussSolver final : public bspline::interpolation::internal::ISolver<T> {
+  size_t n_;
+  std::vector<T> M_, b_, x_;
+  static T mag(const T &v) { return v < static_cast<T>(0) ? -v : v; }
+
+ public:
+  explicit GaussSolver(size_t n) : n_(n), M_(n * n, static_cast<T>(0)), b_(n, static_cast<T>(0)), x_(n, static_cast<T>(0)) {}
+  T &M(size_t i, size_t j) override { return M_.at(i * n_ + j); }
+  T &b(size_t i) override { return b_.at(i); }
+  T &x(size_t i) override { return x_.at(i); }
+  void solve() override {
+    std::vector<T> A = M_, r = b_;
+    for (size_t c = 0; c < n_; c++) {
+      size_t piv = c;
+      for (size_t k = c + 1; k < n_; k++) if (mag(A[k * n_ + c]) > mag(A[piv * n_ + c])) piv = k;
+      if (!(mag(A[piv * n_ + c]) > static_cast<T>(0))) throw SingularSystem();
+      if (piv != c) { for (size_t k = 0; k < n_; k++) std::swap(A[piv * n_ + k], A[c * n_ + k]); std::swap(r[piv], r[c]); }
+      for (size_t k = c + 1; k < n_; k++) {
+        if (A[k * n_ + c] == static_cast<T>(0)) continue;
+        T f = A[k * n_ + c] / A[c * n_ + c];
+        for (size_t q = c; q < n_; q++) A[k * n_ + q] -= f * A[c * n_ + q];
+        r[k] -= f * r[c];
+      }
+    }
+    for (size_t c = n_; c-- > 0;) {
+      T v = r[c];
+      for (size_t q = c + 1; q < n_; q++) v -= A[c * n_ + q] * x_[q];
+      x_[c] = v / A[c * n_ + c];
+    }
+  }
+};
 
 template <class T>
 struct Snap {
@@ -434,13 +474,19 @@ class Interp {
       }
       case G_NEW_INVALID: {
         auto pts = gen_points(2 + (unsigned)op.a % 6, op.b, op.c);
-        switch ((unsigned)op.d % 4) {
+        switch ((unsigned)op.d % 6) {
           case 0: pts.resize((unsigned)op.a % 2); break;                          // 0 or 1 points
           case 1: std::swap(pts[0], pts[1]); break;                               // unordered
           case 2: pts[1] = pts[0]; break;                                         // duplicate
-          default: std::swap(pts.front(), pts.back()); break;
+          case 3: std::swap(pts.front(), pts.back()); break;
+          default:                                                                // NaN at a generated position (built-in floats)
+            if constexpr (std::numeric_limits<T>::has_quiet_NaN) pts[(unsigned)op.c % pts.size()] = std::numeric_limits<T>::quiet_NaN();
+            else pts[1] = pts[0];
+            break;
         }
-        call("Grid(invalid points)", true, [&] { Grid<T> g(pts); (void)g; });
+        // if the invalid points are ACCEPTED the object joins the pool, so that the invariant oracle sees a live grid
+        // whose points are not strictly increasing (the missing refusal itself is C11's business)
+        call("Grid(invalid points)", true, [&] { Grid<T> g(pts); store(grids, g, 0, 0); });
         call("Grid(null shared_ptr)", true, [&] { Grid<T> g(std::shared_ptr<const std::vector<T>>{}); (void)g; });
         return true;
       }
@@ -643,6 +689,11 @@ class Interp {
         return true;
       }
       case P_COPY: case P_MOVE: case P_ASSIGN: case P_MOVE_ASSIGN: case P_SELF_ASSIGN: case P_SELF_MOVE_ASSIGN:
+      case P_INTERPOLATE: {
+        if (!ns) return false;
+        interpolate_op(op);
+        return true;
+      }
       case P_SCALE: case P_DIV: case P_NEG: case P_ISCALE: case P_IDIV: case P_EVAL: case P_FRONTBACK: case P_LINFORM: case P_APPLY: {
         auto oo = pick_order(op.a);
         if (!oo) return false;
@@ -662,6 +713,42 @@ class Interp {
         return true;
       }
       default: return false;
+    }
+  }
+
+  // interpolation through the generic routine with a user solver; the abscissae are a NAMED pool support (an lvalue):
+  // it is an operand and must not change
+  void interpolate_op(const Op &op) {
+    size_t idx = (size_t)(unsigned)op.b % sups.size();
+    touch(1, idx);
+    const size_t np = sups[idx].size();
+    std::vector<T> y;
+    for (size_t i = 0; i < np; i++) y.push_back(mk((int)((i * 5 + (unsigned)op.c) % 11) - 5, 1 + (unsigned)op.d % 3));
+    with_ord<2>((unsigned)op.a % 3, [&](auto O) {
+      constexpr size_t order = decltype(O)::value + 1;
+      bool ok = call("interpolate", np < 2, [&] {
+        try {
+          auto s = bspline::interpolation::interpolate<T, order, GaussSolver<T>>(sups[idx], y);
+          if ((focus & F_C10) && !(s.getSupport() == sups[idx])) fail("C10", "interpolation result does not live on the given window");
+          store_spline(std::move(s));
+        } catch (const SingularSystem &) {
+        }
+      });
+      if (!ok && np < 2) involve(1, idx);
+    });
+  }
+  // C09: an interval of a sum that belongs to neither operand holds exact zeros; anything else is uninitialised or stale storage
+  template <size_t oR>
+  void check_gap_zero(const Spline<T, oR> &r, const Support<T> &sa, const Support<T> &sb, const char *what) {
+    if (!(focus & F_C09)) return;
+    const auto &sr = r.getSupport();
+    for (size_t i = 0; i < r.getCoefficients().size(); i++) {
+      size_t j = sr.getStartIndex() + i;
+      bool in_a = sa.containsIntervals() && j >= sa.getStartIndex() && j + 1 < sa.getEndIndex();
+      bool in_b = sb.containsIntervals() && j >= sb.getStartIndex() && j + 1 < sb.getEndIndex();
+      if (in_a || in_b) continue;
+      for (const auto &c : r.getCoefficients()[i])
+        if (!(c == mk(0))) { fail("C09", std::string(what) + ": the result holds a non-zero coefficient on grid interval " + std::to_string(j) + ", which belongs to neither operand (uninitialised or stale storage)"); return; }
     }
   }
 
@@ -807,8 +894,8 @@ class Interp {
       case P_ADD: case P_SUB: case P_MUL: {
         if (oa != ob && partial) nt_c09 = true;
         bool ok = call(op.code == P_ADD ? "a+b" : op.code == P_SUB ? "a-b" : "a*b", differ, [&] {
-          if (op.code == P_ADD) store_spline(va[a] + vb[b], fam(ka, a));
-          else if (op.code == P_SUB) store_spline(va[a] - vb[b], fam(ka, a));
+          if (op.code == P_ADD) { auto r = va[a] + vb[b]; check_gap_zero(r, sa, sb, "a+b"); store_spline(std::move(r), fam(ka, a)); }
+          else if (op.code == P_SUB) { auto r = va[a] - vb[b]; check_gap_zero(r, sa, sb, "a-b"); store_spline(std::move(r), fam(ka, a)); }
           else store_spline(va[a] * vb[b], fam(ka, a));
         });
         if (!ok && differ) failing();
@@ -821,9 +908,11 @@ class Interp {
           auto tsnap = snap(va[a]);
           std::optional<Spline<T, oa>> expect;
           if (!differ && (focus & F_C14)) expect.emplace(op.code == P_IADD ? va[a] + vb[b] : va[a] - vb[b]);
+          const Support<T> sa_before = sa, sb_before = sb;
           bool ok = call(op.code == P_IADD ? "a+=b" : "a-=b", differ, [&] {
             if (op.code == P_IADD) va[a] += vb[b]; else va[a] -= vb[b];
           });
+          if (ok) check_gap_zero(va[a], sa_before, sb_before, op.code == P_IADD ? "a+=b" : "a-=b");
           if (!ok && differ) {
             failing(); nt_c14 = true;
             if ((focus & F_C14) && !snap(va[a]).same(tsnap)) fail("C14", "in-place operation threw but changed its target");
